@@ -11,7 +11,7 @@ ASSUMPTIONS = [
 
 
 def explore(ctx):
-    n = 110 if ctx.tier == "quick" else 4000
+    n = 200 if ctx.tier == "quick" else 5000
     res = ce.explore_cache(ctx, PROPS, n, steps=6)
     if not res["violations"]:
         from harness import c08_files
